@@ -94,3 +94,42 @@ func TestVerifTokenBucketBound(t *testing.T) {
 		}
 	}
 }
+
+// A client that spends its burst, stays silent and comes back gets what the rate yields for the
+// silent time - never the whole burst again (burst larger than the per-minute rate).
+func TestVerifIPLimiterAfterSilence(t *testing.T) {
+	for _, silent := range []time.Duration{61 * time.Second, 5 * time.Minute, 30 * time.Second} {
+		l := newIPLimiter(2.0/60.0, 5) // 2 per minute, burst 5
+		ip := "198.51.100.7"
+		first := 0
+		for i := 0; i < 8; i++ {
+			if l.Allow(ip) {
+				first++
+			}
+		}
+		if first != 5 {
+			t.Fatalf("VERIF-VIOLATION rate_limit_rejects_within_the_burst: %d of 5", first)
+		}
+		// the silent time: every bucket's clock is moved back
+		l.mu.Lock()
+		for _, b := range l.buckets {
+			b.mu.Lock()
+			b.last = b.last.Add(-silent)
+			b.mu.Unlock()
+		}
+		l.mu.Unlock()
+		after := 0
+		for i := 0; i < 8; i++ {
+			if l.Allow(ip) {
+				after++
+			}
+		}
+		earned := int(silent.Seconds()*2.0/60.0) + 1
+		if earned > 5 {
+			earned = 5
+		}
+		if after > earned {
+			t.Fatalf("VERIF-VIOLATION more_connects_accepted_than_the_rate_allows: %d admitted after %v of silence, the rate yields at most %d (burst 5, 2 per minute)", after, silent, earned)
+		}
+	}
+}
